@@ -608,9 +608,19 @@ where
         &mut self,
         diff: &Diff<T>,
     ) -> Result<(), Self::Error> {
-        self.insert_records(diff.patch.records(), true).await?;
-
-        let computed = self.tree().head()?;
+        // Verify against the checkpoint before any changes are made
+        // so that a failed verification leaves the event log untouched
+        let computed = if diff.patch.records().is_empty() {
+            // Nothing is written for an empty patch
+            self.tree().head()?
+        } else {
+            let mut tree = CommitTree::new();
+            for record in diff.patch.records() {
+                tree.insert(*record.commit().as_ref());
+            }
+            tree.commit();
+            tree.head()?
+        };
         let verified = computed == diff.checkpoint;
         if !verified {
             return Err(Error::CheckpointVerification {
@@ -619,6 +629,8 @@ where
             }
             .into());
         }
+
+        self.insert_records(diff.patch.records(), true).await?;
 
         Ok(())
     }
